@@ -170,7 +170,8 @@ ENUMS = {
     "Ordering": {"Less": -1, "Equal": 0, "Greater": 1},
     "ControlFlow": ["Continue", "Break"],
     "Bound": ["Included", "Excluded", "Unbounded"],
-    "Entry": ["Occupied", "Vacant"],       # std::collections::{hash_map,btree_map}::Entry
+    "Entry": ["Occupied", "Vacant"],       # std::collections::hash_map::Entry
+    "BTreeEntry": ["Vacant", "Occupied"],  # std::collections::btree_map::Entry (declared in this order); built by mir2smt/symmap.py
     "Poll": ["Ready", "Pending"],
 }
 
